@@ -75,10 +75,13 @@ def bfs(ctx, module, expand_name, init_worlds, depth, chunk=None, max_states=Non
     seen = {}
     frontier = []
     for w in init_worlds:
+        trace0 = []
+        if isinstance(w, tuple):  # (world, trace that led to it): BFS from a non-initial state, replayable from the real initial one
+            w, trace0 = w
         k = world_key(w)
         if k not in seen:
             seen[k] = 0
-            frontier.append((w, []))
+            frontier.append((w, list(trace0)))
     level = 0
     total_transitions = 0
     while frontier and level <= depth:
